@@ -134,6 +134,48 @@ def tab_spec_from(src_rewritten):
     return 'pub closed spec fn tab_spec() -> Seq<u32> { seq![%s] }\n' % ', '.join(e + 'u32' for e in entries), len(entries)
 
 
+def probe_lemmas(text, lemmas):
+    """insert `assert(false);` at the start of the body of every registered lemma found in ghost text (vacuity probe)"""
+    toks = rustlex.lex(text)
+    code = rustlex.code_tokens(toks)
+    ins = []
+    names = []
+    for ci in range(len(code) - 2):
+        t = toks[code[ci]]
+        if t.kind == 'ident' and t.text == 'fn' and toks[code[ci + 1]].kind == 'ident' and toks[code[ci + 1]].text in lemmas \
+                and ci > 0 and toks[code[ci - 1]].text == 'proof':
+            name = toks[code[ci + 1]].text
+            pd = 0
+            cj = ci + 2
+            found = None
+            while cj < len(code):
+                u = toks[code[cj]]
+                if u.kind == 'punct':
+                    if u.text in '([':
+                        pd += 1
+                    elif u.text in ')]':
+                        pd -= 1
+                    elif u.text == '{' and pd == 0:
+                        prev = toks[code[cj - 1]]
+                        if prev.kind == 'ident' and prev.text[0].isupper() and '\n' not in text[prev.end:u.pos]:
+                            # struct / variant pattern or literal: skip it
+                            cj = rustlex._match_brace(toks, code, cj)
+                        else:
+                            ck = rustlex._match_brace(toks, code, cj)
+                            nxt = toks[code[ck + 1]].text if ck + 1 < len(code) else ''
+                            if nxt in ('pub', 'proof', 'spec', 'fn', '#', '}', '', 'impl', 'use', 'broadcast') or ck + 1 >= len(code):
+                                found = u.pos
+                                break
+                            cj = ck
+                cj += 1
+            if found is not None:
+                ins.append(found + 1)
+                names.append(name)
+    for pos in sorted(ins, reverse=True):
+        text = text[:pos] + ' assert(false); /*VACUITY-PROBE*/ ' + text[pos:]
+    return text, names
+
+
 # --------------------------------------------------------------------------
 def module_of(relpath):
     p = relpath[:-3]
@@ -182,7 +224,9 @@ def split_top(s):
 
 
 class Splicer:
-    def __init__(self, body, relpath, module, spec, first_line):
+    def __init__(self, body, relpath, module, spec, first_line, probes=False):
+        self.probes = probes
+        self.probed = []
         self.body = body
         self.relpath = relpath
         self.module = module
@@ -258,6 +302,9 @@ class Splicer:
             if fs.decreases:
                 self.add(f.sig_end, '    decreases %s\n' % fs.decreases.strip(), {'kind': 'kw'})
             self.add(f.sig_end, '    ', {'kind': 'sep'})
+        if f.has_body and self.probes and (req or ens):
+            self.add(f.body_open + 1, ' proof { assert(false); } /*VACUITY-PROBE*/', {'kind': 'probe', 'fn': f.path})
+            self.probed.append(f.path)
         if not f.has_body:
             if fs.loops or fs.proofs:
                 raise AnchorLost('%s: loop/proof splices on a bodiless function' % f.path)
@@ -417,7 +464,7 @@ class Splicer:
         return d
 
 
-def annotate(repo_src, out_dir, spec_paths, vshim_path, ghost_mods):
+def annotate(repo_src, out_dir, spec_paths, vshim_path, ghost_mods, probes=False):
     """ghost_mods: {module name: path} extra stand-alone ghost modules (files copied to src/<name>.rs)"""
     spec = vspec.parse_files(spec_paths)
     log = []
@@ -425,6 +472,7 @@ def annotate(repo_src, out_dir, spec_paths, vshim_path, ghost_mods):
     files = {}
     fmap = {}
     seen_all = set()
+    probed_all = []
     fn_index = {}
     n_funcs = 0
     os.makedirs(os.path.join(out_dir, 'src'), exist_ok=True)
@@ -453,18 +501,22 @@ def annotate(repo_src, out_dir, spec_paths, vshim_path, ghost_mods):
             fmap['src/' + rel] = lm
             continue
         head, body, nhead = split_head(src)
-        sp = Splicer(body, rel, module, spec, nhead + 1)
+        sp = Splicer(body, rel, module, spec, nhead + 1, probes)
         n_funcs += len(sp.funcs)
         for f in sp.funcs:
             fn_index[f.path] = {'file': rel, 'line': nhead + 1 + body.count('\n', 0, f.fn_pos), 'has_body': f.has_body,
                                 'loops': len(f.loops), 'owner': f.owner_kind}
         seen_all |= sp.splice_all()
+        probed_all.extend(sp.probed)
         tail = ''
         if rel == 'crc.rs':
             ts, n = tab_spec_from(body)
             tail += ts
             log.append({'rule': 'R7', 'file': rel, 'line': 0, 'before': '(none)', 'after': 'tab_spec(): spec copy of the %d table entries' % n})
         for t in spec.modules.get(module, []):
+            if probes:
+                t, names = probe_lemmas(t, spec.lemmas)
+                probed_all.extend('lemma ' + x for x in names)
             tail += t + '\n'
         if module in spec.modules:
             seen_all.add('module ' + module)
@@ -496,6 +548,9 @@ def annotate(repo_src, out_dir, spec_paths, vshim_path, ghost_mods):
         log.append({'rule': 'R8', 'file': 'vshim.rs', 'line': 0, 'before': '(none)', 'after': 'unsafe impl Structural for crate::%s {}' % t})
     for g, path in ghost_mods.items():
         txt = open(path).read()
+        if probes:
+            txt, names = probe_lemmas(txt, spec.lemmas)
+            probed_all.extend('lemma ' + x for x in names)
         for t in spec.modules.get(g, []):
             txt = txt.replace('// @MODULE_TAIL', t + '\n// @MODULE_TAIL')
         open(os.path.join(out_dir, 'src', g + '.rs'), 'w').write(txt)
@@ -511,6 +566,7 @@ def annotate(repo_src, out_dir, spec_paths, vshim_path, ghost_mods):
         ],
         'safe': {f.path: f.safe for f in spec.fns.values()},
         'lemmas': spec.lemmas,
+        'probed': probed_all,
         'dropped': ['**/tests.rs (cfg(test) modules)', 'the four #[test] functions at the end of crc.rs'],
     }
     json.dump(meta, open(os.path.join(out_dir, 'map.json'), 'w'))
